@@ -34,7 +34,10 @@ def rt_type(rng, depth, top=False):
             if r == 0: tag = name.lower() + "_r"
             elif r == 1 and fty["t"] == "struct": tag = ",inline"
             elif r == 2: tag = ",ignore"
-            fields.append({"n": name, "tag": tag, "v": "", "ty": fty})
+            f = {"n": name, "tag": tag, "v": "", "ty": fty}
+            if fty["t"] == "struct" and "ignore" not in tag and rng.chance(0.3):
+                f["emb"] = True        # an embedded struct: without ',inline' it is a setting named after the field like any other
+            fields.append(f)
         # inlined structs must not define a key twice
         seen = set()
         ok = []
